@@ -27,6 +27,19 @@ type Scenario struct {
 	Unsub   bool       // offer Unsubscribe of the event subscription
 	Drop    bool       // offer a server side disconnect
 	Close   bool       // offer Close()
+	// Big lists the requests whose payload exceeds the server's max_payload
+	// (announced as 1024 for the scenario): publishing them fails after the
+	// reply subscription was made.
+	Big []int
+}
+
+func (sc *Scenario) big(i int) bool {
+	for _, b := range sc.Big {
+		if b == i {
+			return true
+		}
+	}
+	return false
 }
 
 type reqModel struct {
@@ -108,6 +121,10 @@ func (r *Run) fail(format string, a ...interface{}) {
 
 // Start connects a fresh adapter to a fresh fake server.
 func Start(sc *Scenario) (*Run, error) {
+	MaxPayload = 1048576
+	if len(sc.Big) > 0 {
+		MaxPayload = 1024
+	}
 	srv, err := NewFakeServer()
 	if err != nil {
 		return nil, err
@@ -262,7 +279,7 @@ func (r *Run) Do(a string) {
 		q := r.reqs[idx]
 		if r.dry {
 			q.sent, q.state = true, "pending"
-			if r.dropped {
+			if r.dropped || r.sc.big(idx) {
 				q.state = "failed"
 			} else {
 				r.order = append(r.order, idx)
@@ -272,7 +289,11 @@ func (r *Run) Do(a string) {
 		pubs, _, _ := r.srv.Snapshot()
 		before := r.tq.VerifElems()
 		i := idx
-		r.cl.SendRequest(fmt.Sprintf("call.test.%d", idx), []byte(`{}`), func(_ string, data []byte, err error) {
+		payload := []byte(`{}`)
+		if r.sc.big(idx) {
+			payload = []byte(`{"pad":"` + strings.Repeat("x", 4096) + `"}`)
+		}
+		r.cl.SendRequest(fmt.Sprintf("call.test.%d", idx), payload, func(_ string, data []byte, err error) {
 			if err != nil {
 				r.complete(i, "ERR "+err.Error())
 			} else {
@@ -281,6 +302,28 @@ func (r *Run) Do(a string) {
 		})
 		q.sent = true
 		q.state = "pending"
+		if r.sc.big(idx) {
+			// the publish is refused by the client library: one completion with
+			// an error (from a goroutine), nothing left in the timeout queue
+			q.state = "failed"
+			dl := time.Now().Add(2 * time.Second)
+			for {
+				r.mu.Lock()
+				n := len(q.got)
+				r.mu.Unlock()
+				if n > 0 || time.Now().After(dl) {
+					break
+				}
+				time.Sleep(50 * time.Microsecond)
+			}
+			if after := r.tq.VerifElems(); len(after) != len(before) {
+				r.fail("request %d could not be published but left %d element(s) in the timeout queue", idx, len(after)-len(before))
+			}
+			if pending, _, _ := r.cl.VerifState(); pending != r.modelPending() {
+				r.fail("request %d could not be published but the adapter keeps %d pending request(s), model %d", idx, pending, r.modelPending())
+			}
+			return
+		}
 		if !r.dropped {
 			r.srv.WaitPubs(len(pubs) + 1)
 			pubs, _, _ = r.srv.Snapshot()
@@ -502,6 +545,17 @@ func (r *Run) invariant(after string) {
 	if pending != queued+len(r.popped)+extended-r.stalePopped() {
 		r.fail("after %s: %d pending requests but %d queued + %d popped + %d extended timers", after, pending, queued, len(r.popped), extended)
 	}
+}
+
+// modelPending is the number of requests the model takes to be pending.
+func (r *Run) modelPending() int {
+	n := 0
+	for _, q := range r.reqs {
+		if q.state == "pending" || q.state == "popped" || q.state == "extended" || q.state == "xfired" {
+			n++
+		}
+	}
+	return n
 }
 
 // stalePopped counts popped timers whose request has completed meanwhile.
